@@ -130,6 +130,10 @@ func propC19(a *Analysis, r *Registry) {
 				r.Fail(rB, name+"/poNum", b.pos(fn), "no post-order numbering")
 				return
 			}
+			// poNum is indexed by node, not by post-order position: a table has a slot for every node
+			if at := poNum.SingleAtom(); at != nil && strings.HasPrefix(at.Name, "makeslice:") && len(at.Args) >= 1 {
+				b.Eq(rB, name+"/len(poNum)", b.pos(fn), at.Args[0], env, "g.NumNodes()")
+			}
 			env.Set("poNum", poNum, nil)
 			// the update: idom[b] = newIdom under idom[b] != newIdom
 			ia := updStore.Addr.(*ssa.IndexAddr)
